@@ -213,7 +213,9 @@ def check(ctx):
 def _run_cumsum_positions(P, pos, to, positions):
     from ..absint import Evaluator as E
 
-    ev = E(P, models=dict(COMMON_MODELS), attr_models={("DataArray", "chunks"): lambda ev, o, n: TOP})
+    from .c09 import cumsum_evaluator
+
+    ev = cumsum_evaluator(P)
     fi = P.func("grid:Grid.cumsum")
     return ev.run_paths(fi, lambda: dict(self=make_grid(("AX",), positions=positions), da=make_da("da", [Sym("t"), dimsym("AX", pos)]), axis=AX, to=to, boundary=None, fill_value=None, metric_weighted=None, keep_coords=False))
 
@@ -223,8 +225,11 @@ def _cumsum_real_pad(P, pos, to, boundary=None, fill_value=None):
     def m_pad_basic(ev, args, kw, node):
         return args[0].with_eff(("PAD_BASIC",)) if isinstance(args[0], Obj) else TOP
 
+    from ..harness import coord_tracking_models
+
     models = {"padding:_pad_basic": m_pad_basic, "grid_ufunc:_reattach_coords": COMMON_MODELS["grid_ufunc:_reattach_coords"]}
-    ev = Evaluator(P, models=models, attr_models=da_attr_models(), method_models=da_method_models())
+    mm, am = coord_tracking_models()
+    ev = Evaluator(P, models=models, attr_models={**da_attr_models(), **am}, method_models={**da_method_models(), **mm})
     fi = P.func("grid:Grid.cumsum")
     return ev.run_paths(fi, lambda: dict(self=make_grid(("AX",), boundary="fill", fill_value=0.0), da=make_da("da", [Sym("t"), dimsym("AX", pos)]), axis=AX, to=to,
                                          boundary=boundary, fill_value=fill_value, metric_weighted=None, keep_coords=False))
